@@ -214,8 +214,9 @@ cmp_ev(const void *a, const void *b)
 	struct ovni_ev *ev1 = *pev1;
 	struct ovni_ev *ev2 = *pev2;
 
-	int64_t clock1 = (int64_t) ev1->header.clock;
-	int64_t clock2 = (int64_t) ev2->header.clock;
+	/* Compare the clocks as unsigned, like the rest of the sorting */
+	uint64_t clock1 = ev1->header.clock;
+	uint64_t clock2 = ev2->header.clock;
 
 	if (clock1 < clock2)
 		return -1;
